@@ -8,6 +8,7 @@ require (
 	github.com/bytecodealliance/wasmtime-go v0.37.0
 	github.com/cbergoon/merkletree v0.2.0
 	github.com/ethereum/go-ethereum v1.10.8
+	github.com/libp2p/go-libp2p-core v0.5.6
 	github.com/meshplus/bitxhub v0.0.0
 	github.com/meshplus/bitxhub-core v1.28.1-0.20230411032641-11245b4adfc5
 	github.com/meshplus/bitxhub-kit v1.28.0
@@ -27,7 +28,10 @@ require (
 	github.com/binance-chain/tss-lib v1.3.3-0.20210411025750-fffb56b30511 // indirect
 	github.com/btcsuite/btcd v0.21.0-beta // indirect
 	github.com/cespare/xxhash/v2 v2.1.1 // indirect
+	github.com/coreos/etcd v3.3.18+incompatible // indirect
 	github.com/coreos/go-semver v0.3.0 // indirect
+	github.com/coreos/go-systemd v0.0.0-20190719114852-fd7a80b32e1f // indirect
+	github.com/coreos/pkg v0.0.0-20180928190104-399ea9e2e55f // indirect
 	github.com/davecgh/go-spew v1.1.1 // indirect
 	github.com/davidlazar/go-crypto v0.0.0-20190912175916-7055855a373f // indirect
 	github.com/deckarep/golang-set v0.0.0-20180603214616-504e848d77ea // indirect
@@ -83,7 +87,6 @@ require (
 	github.com/libp2p/go-libp2p-blankhost v0.1.6 // indirect
 	github.com/libp2p/go-libp2p-circuit v0.2.2 // indirect
 	github.com/libp2p/go-libp2p-connmgr v0.2.3 // indirect
-	github.com/libp2p/go-libp2p-core v0.5.6 // indirect
 	github.com/libp2p/go-libp2p-crypto v0.1.0 // indirect
 	github.com/libp2p/go-libp2p-discovery v0.4.0 // indirect
 	github.com/libp2p/go-libp2p-kad-dht v0.8.2 // indirect
@@ -138,6 +141,7 @@ require (
 	github.com/multiformats/go-varint v0.0.6 // indirect
 	github.com/olekukonko/tablewriter v0.0.5 // indirect
 	github.com/opentracing/opentracing-go v1.1.0 // indirect
+	github.com/orcaman/concurrent-map v0.0.0-20210501183033-44dafcb38ecc // indirect
 	github.com/otiai10/primes v0.0.0-20180210170552-f6d2a1ba97c4 // indirect
 	github.com/pelletier/go-toml v1.9.3 // indirect
 	github.com/pkg/errors v0.9.1 // indirect
